@@ -1139,7 +1139,8 @@ impl Peers {
     }
 
     pub(crate) fn required_peers_count(&self) -> usize {
-        let required_peers_count = ((self.get_max_outbound_peers() + 1) / 2) as usize;
+        let max_outbound_peers = self.get_max_outbound_peers();
+        let required_peers_count = (max_outbound_peers / 2 + max_outbound_peers % 2) as usize;
         if required_peers_count == 0 {
             panic!("max outbound peers shouldn't be zero!");
         }
